@@ -24,6 +24,7 @@ func (d Dict) render(f *File, w io.Writer, s *Statement) error {
 	type kv struct {
 		k    Code
 		v    Code
+		id   string // the pair rendered with package paths in place of aliases
 		text string // the rendered key
 	}
 	keys := []kv{}
@@ -31,12 +32,28 @@ func (d Dict) render(f *File, w io.Writer, s *Statement) error {
 		if k.isNull(f) || v.isNull(f) {
 			continue
 		}
+		// Aliases are chosen when a package is first rendered, so the order in which the keys are
+		// rendered must not depend on the map iteration order. First identify each pair by a
+		// rendering that does not use (or register) any aliases.
+		tmp := f.withoutAliases()
 		buf := &bytes.Buffer{}
-		if err := k.render(f, buf, nil); err != nil {
+		if err := k.render(tmp, buf, nil); err != nil {
+			return err
+		}
+		buf.WriteByte(0)
+		if err := v.render(tmp, buf, nil); err != nil {
+			return err
+		}
+		keys = append(keys, kv{k: k, v: v, id: buf.String()})
+	}
+	sort.Slice(keys, func(i, j int) bool { return keys[i].id < keys[j].id })
+	for i := range keys {
+		buf := &bytes.Buffer{}
+		if err := keys[i].k.render(f, buf, nil); err != nil {
 			return err
 		}
 		// several keys may render identically, so pairs can't be indexed by the rendered key
-		keys = append(keys, kv{k: k, v: v, text: buf.String()})
+		keys[i].text = buf.String()
 	}
 	sort.SliceStable(keys, func(i, j int) bool { return keys[i].text < keys[j].text })
 	for _, key := range keys {
